@@ -83,7 +83,7 @@ func (env *SpecEnv) bindFreeVars(f *Frame) {
 		}
 		switch x := v.(type) {
 		case *Term:
-			a := &Addr{ref: x, base: et, typ: et}
+			a := refAddr(x, et)
 			env.names[fv.Name()] = SV{t: env.st.load(a), typ: et}
 		case *Addr:
 			env.names[fv.Name()] = SV{t: env.st.load(x), typ: et}
@@ -132,7 +132,7 @@ func (f *Frame) calleeEnv(c *Contract, ct *callTarget, st *State, old *State) *S
 				}
 				switch x := ct.bindings[i].(type) {
 				case *Term:
-					env.names[fv.Name()] = SV{t: st.load(&Addr{ref: x, base: et, typ: et}), typ: et}
+					env.names[fv.Name()] = SV{t: st.load(refAddr(x, et)), typ: et}
 				case *Addr:
 					env.names[fv.Name()] = SV{t: st.load(x), typ: et}
 				}
@@ -305,6 +305,12 @@ func (env *SpecEnv) lookupIdent(name string) (SV, bool, error) {
 		return sv, true, nil
 	}
 	f := env.f
+	if env.useCells && env.cellSt != nil {
+		// inside old(): a parameter name denotes its value at function entry
+		if t, ok := f.argTerms[name]; ok {
+			return SV{t: t, typ: f.paramTyp[name]}, true, nil
+		}
+	}
 	if env.useCells {
 		base := name
 		ord := 0
@@ -354,7 +360,7 @@ func (env *SpecEnv) lookupIdent(name string) (SV, bool, error) {
 				}
 				if f.escapes[a] {
 					if r, ok := f.vals[a].(*Term); ok {
-						return SV{t: env.cells().load(&Addr{ref: r, base: et, typ: et}), typ: et}, true, nil
+						return SV{t: env.cells().load(refAddr(r, et)), typ: et}, true, nil
 					}
 				}
 				if ord != 0 {
@@ -372,7 +378,7 @@ func (env *SpecEnv) lookupIdent(name string) (SV, bool, error) {
 				et := derefType(fv.Type())
 				switch x := f.vals[fv].(type) {
 				case *Term:
-					return SV{t: env.st.load(&Addr{ref: x, base: et, typ: et}), typ: et}, true, nil
+					return SV{t: env.st.load(refAddr(x, et)), typ: et}, true, nil
 				case *Addr:
 					return SV{t: env.st.load(x), typ: et}, true, nil
 				}
